@@ -608,7 +608,7 @@ ASSUMPTIONS = [
 
 def run(tier, seed):
     core.standard_run(PID, tier, seed, {
-        'model_vos': ['Node/AppCfg'], 'table_sections': [],
+        'model_vos': ['Node/AppCfg'], 'table_sections': ['source_shape'],
         'preamble': PREAMBLE, 'run_fn': RUN_FN, 'in_type': 'list op * list inst * list cont',
         'gen_case': gen_case, 'impl_run': impl_run, 'expected': lambda c, r: expected(c, r),
         'case_term': case_term, 'oracle': oracle, 'nontrivial': nontrivial,
